@@ -54,11 +54,19 @@ func (c *columnEnum) Apply(chunk commit.Chunk, r *commit.Reader) {
 // Search for the string or adds it and returns the offset
 func (c *columnEnum) findOrAdd(v []byte) uint32 {
 	target := uint32(xxh3.Hash(v))
-	at, _ := c.seek.LoadOrStore(target, func() uint32 {
-		c.data = append(c.data, string(v))
-		return uint32(len(c.data)) - 1
-	})
-	return at
+	for {
+		at, _ := c.seek.LoadOrStore(target, func() uint32 {
+			c.data = append(c.data, string(v))
+			return uint32(len(c.data)) - 1
+		})
+
+		// The table is keyed by a 32-bit hash, on a collision with a different
+		// string probe the next slot instead of aliasing the two strings.
+		if c.data[at] == string(v) {
+			return at
+		}
+		target++
+	}
 }
 
 // readAt reads a string at a location
